@@ -6,6 +6,8 @@ import (
 	"go/token"
 	"go/types"
 	"strings"
+
+	"golang.org/x/tools/go/cfg"
 )
 
 // trustedHelper: a small function of hive.go whose contract other rules rely on BY NAME (the copy
@@ -160,5 +162,190 @@ func checkTrustedHelpers(r *Reporter, p *Prog, rows []trustedHelper) {
 		default:
 			r.Pass(rule, key, p.posStr(fd.Pos()), fmt.Sprintf("%d returned slice(s), each allocated inside the call%s", nRet, map[bool]string{true: " or the caller's own argument", false: ""}[row.ArgOK]))
 		}
+	}
+}
+
+// checkOptionsApplyOrder: constructors size what they build from the options inside the init function
+// they hand to options.Apply (the worker pool makes its shutdown-signal channel with capacity
+// workerCount there, the timed executor reads maxQueueSize). That is only right while Apply runs every
+// option BEFORE every init function: in Apply's graph no call of an init function can be followed by a
+// call of an option.
+func checkOptionsApplyOrder(r *Reporter, p *Prog) {
+	const rule = "options/applied-before-init"
+	const pkg = "runtime/options"
+	pk := p.Pkg(pkg)
+	fd := p.FuncDecl(pkg, "", "Apply")
+	if pk == nil || fd == nil || fd.Body == nil {
+		r.Unresolved(rule, pkg+".Apply", "function not found (constructors rely on its order)")
+		return
+	}
+	info := pk.TypesInfo
+	f := newFuncCFGPlain(p, info, fd.Body, pkg+".Apply")
+	var optParam, initParam types.Object
+	i := 0
+	for _, fl := range fd.Type.Params.List {
+		for _, nm := range fl.Names {
+			switch i {
+			case 1:
+				optParam = info.Defs[nm]
+			case 2:
+				initParam = info.Defs[nm]
+			}
+			i++
+		}
+	}
+	// a call of an element of the given slice parameter: `for _, f := range param { f(obj) }` or param[i](obj)
+	callsElemOf := func(param types.Object) func(ast.Node) bool {
+		return func(n ast.Node) bool {
+			c, ok := n.(*ast.CallExpr)
+			if !ok || param == nil {
+				return false
+			}
+			if ix, isIx := ast.Unparen(c.Fun).(*ast.IndexExpr); isIx {
+				return objOfIdent(info, ix.X) == param
+			}
+			o := objOfIdent(info, c.Fun)
+			if o == nil {
+				return false
+			}
+			hit := false
+			ast.Inspect(fd.Body, func(m ast.Node) bool {
+				if rs, isRange := m.(*ast.RangeStmt); isRange && rs.Value != nil && objOfIdent(info, rs.Value) == o && objOfIdent(info, rs.X) == param {
+					hit = true
+				}
+				return !hit
+			})
+			return hit
+		}
+	}
+	isOpt, isInit := callsElemOf(optParam), callsElemOf(initParam)
+	opts, inits := f.Find(isOpt), f.Find(isInit)
+	switch {
+	case len(opts) == 0 || len(inits) == 0:
+		r.Fail(rule, pkg+".Apply", p.posStr(fd.Pos()), fmt.Sprintf("expected calls of the options and of the init functions in Apply (found %d / %d) (vacuous)", len(opts), len(inits)))
+	default:
+		bad := ""
+		var wit []string
+		for _, ip := range inits {
+			if w, found := f.reach(Point{ip.B, ip.I + 1}, nil, func(pt Point, atExit bool) bool {
+				return !atExit && containsMatch(f.nodeAt(pt), isOpt)
+			}); found {
+				bad, wit = f.PosOf(ip)+": an option can be applied after an init function has run: constructors that size channels, queues or pools from option values inside their init function (workerpool.New: shutdownSignal of capacity workerCount) see the defaults instead", w
+			}
+		}
+		if bad != "" {
+			r.Fail(rule, pkg+".Apply", p.posStr(fd.Pos()), bad, wit...)
+		} else {
+			r.Pass(rule, pkg+".Apply", p.posStr(fd.Pos()), "every option is applied before any init function runs")
+		}
+	}
+}
+
+// checkIndexResultGuarded: in the given packages, a slice or index expression whose bound is the result
+// of strings/bytes Index*/LastIndex* (which is -1 when nothing is found) is reached only through an
+// edge on which that result was compared with 0 / -1. Otherwise a missing separator panics with
+// "slice bounds out of range [:-1]" - inside whatever critical section the caller holds.
+func checkIndexResultGuarded(r *Reporter, p *Prog, rule string, pkgs []string) {
+	n := 0
+	for _, pkg := range pkgs {
+		pk := p.Pkg(pkg)
+		if pk == nil {
+			r.Unresolved(rule, pkg, "package not loaded")
+			continue
+		}
+		info := pk.TypesInfo
+		isIndexCall := func(e ast.Expr) bool {
+			c, ok := ast.Unparen(e).(*ast.CallExpr)
+			if !ok {
+				return false
+			}
+			q := qualifiedCallee(info, c)
+			return (strings.HasPrefix(q, "strings.") || strings.HasPrefix(q, "bytes.")) && (strings.Contains(q, ".Index") || strings.Contains(q, ".LastIndex"))
+		}
+		for _, fd := range p.AllFuncDecls(pkg) {
+			if fd.Body == nil || strings.HasSuffix(p.Fset.Position(fd.Pos()).Filename, "_test.go") {
+				continue
+			}
+			fkey := funcKey(pkg, fd)
+			var f *FuncCFG
+			ast.Inspect(fd.Body, func(nd ast.Node) bool {
+				var bounds []ast.Expr
+				switch x := nd.(type) {
+				case *ast.SliceExpr:
+					bounds = []ast.Expr{x.Low, x.High, x.Max}
+				case *ast.IndexExpr:
+					if _, isMap := info.TypeOf(x.X).Underlying().(*types.Map); !isMap {
+						bounds = []ast.Expr{x.Index}
+					}
+				default:
+					return true
+				}
+				for _, bd := range bounds {
+					if bd == nil {
+						continue
+					}
+					if f == nil {
+						f = newFuncCFG(p, info, fd.Body, fkey)
+					}
+					pt, okp := f.PointOf(nd)
+					if !okp {
+						continue
+					}
+					// the bound is, or contains as an operand, an index result (directly or through a temporary)
+					var idx ast.Expr
+					ast.Inspect(bd, func(m ast.Node) bool {
+						e, isExpr := m.(ast.Expr)
+						if !isExpr || idx != nil {
+							return idx == nil
+						}
+						if isIndexCall(e) {
+							idx = e
+							return false
+						}
+						if id, isId := e.(*ast.Ident); isId {
+							if re, _ := f.Resolve(id, pt); isIndexCall(re) {
+								idx = id
+								return false
+							}
+						}
+						return true
+					})
+					if idx == nil {
+						continue
+					}
+					n++
+					key := fmt.Sprintf("%s in %s", exprKey(nd.(ast.Expr)), fkey)
+					ik, ikAt := exprKey(idx), f.KeyAt(idx, pt)
+					var guarded []Edge
+					f.forEachEdgeFact(func(e Edge, b *cfg.Block, ft fact) {
+						ept := Point{b, len(b.Nodes) - 1}
+						rel, ok := relOfWith(ft.Atom, func(y ast.Expr) string { return f.KeyAt(y, ept) })
+						if !ok {
+							return
+						}
+						if !ft.Pol {
+							rel = negRel(rel)
+						}
+						l, rr := rel.L, rel.R
+						isIdx := func(k string) bool { return k == ik || k == ikAt }
+						switch {
+						case isIdx(rr) && (l == "0" && rel.Op == "<=" || l == "-1" && (rel.Op == "<" || rel.Op == "!=") || l == "0" && rel.Op == "<"):
+							guarded = append(guarded, e)
+						case isIdx(l) && rr == "-1" && rel.Op == "!=":
+							guarded = append(guarded, e)
+						}
+					})
+					if w, only := f.OnlyThroughEdges(pt, guarded); only {
+						r.Pass(rule, key, p.posStr(nd.Pos()), "the index result is known to be a position on every path")
+					} else {
+						r.Fail(rule, key, p.posStr(nd.Pos()), "the result of "+ikAt+" is used as a slice bound / index on a path that has not excluded -1 (nothing found): slice bounds out of range", w...)
+					}
+				}
+				return true
+			})
+		}
+	}
+	if n == 0 {
+		r.Pass(rule, strings.Join(pkgs, ","), "-", "no slice bound or index is the result of an Index/LastIndex search")
 	}
 }
